@@ -37,6 +37,21 @@ LIB_DIRS = {
     "plain": ["core/src", "log/src", "log/impl/src", "filesystem/src", "filesystem/impl/src"],
 }
 
+# symbols of the code under test that the fiber scheduler takes over at link time (--wrap)
+WRAPPED = (["pthread_mutex_lock", "pthread_mutex_unlock", "pthread_mutex_trylock",
+            "pthread_rwlock_rdlock", "pthread_rwlock_wrlock", "pthread_rwlock_tryrdlock",
+            "pthread_rwlock_trywrlock", "pthread_rwlock_unlock"] +
+           ["__tsan_atomic%d_%s" % (w, op) for w in (8, 16, 32, 64)
+            for op in ("load", "store", "exchange", "fetch_add", "fetch_sub", "fetch_and", "fetch_or",
+                       "fetch_xor", "fetch_nand", "compare_exchange_strong", "compare_exchange_weak")])
+C19C_WRAPS = ["-Wl,--wrap=" + sym for sym in WRAPPED]
+# blocking / synchronising primitives the scheduler cannot simulate: if the code under test starts
+# to use one of them, the concurrent engine gives no verdict (exit 2) instead of a misleading one
+UNSUPPORTED_SYNC = ("pthread_cond_", "pthread_once", "pthread_spin_", "sem_wait", "sem_post",
+                    "pthread_mutex_timedlock", "pthread_mutex_clocklock", "pthread_rwlock_timed",
+                    "pthread_rwlock_clock", "pthread_barrier_", "__tsan_atomic128", "__atomic_wait",
+                    "pthread_create")
+
 # binaries: name -> (flavour, [harness sources relative to /verif/sim], [extra flags], [link flags],
 #                    [sources compiled WITHOUT the sanitizer flags])
 BINARIES = {
@@ -48,19 +63,7 @@ BINARIES = {
     "c01": ("asan", ["props/c01_total_io.cpp", "seams/new_delete.cpp",
                      "seams/stat_interpose.cpp"], [], ["-ldl"], []),
     "c19s": ("asan", ["props/c19_log_seq.cpp", "seams/new_delete.cpp"], [], [], []),
-    "c19c": ("tsan", ["props/c19_log_conc.cpp"], [],
-             ["-Wl,--wrap=pthread_mutex_lock", "-Wl,--wrap=pthread_mutex_unlock",
-              "-Wl,--wrap=pthread_mutex_trylock",
-              "-Wl,--wrap=pthread_rwlock_rdlock", "-Wl,--wrap=pthread_rwlock_wrlock",
-              "-Wl,--wrap=pthread_rwlock_tryrdlock", "-Wl,--wrap=pthread_rwlock_trywrlock",
-              "-Wl,--wrap=pthread_rwlock_unlock",
-              "-Wl,--wrap=__tsan_atomic32_load", "-Wl,--wrap=__tsan_atomic32_store",
-              "-Wl,--wrap=__tsan_atomic32_exchange", "-Wl,--wrap=__tsan_atomic32_fetch_add",
-              "-Wl,--wrap=__tsan_atomic32_compare_exchange_strong",
-              "-Wl,--wrap=__tsan_atomic32_compare_exchange_weak",
-              "-Wl,--wrap=__tsan_atomic8_load", "-Wl,--wrap=__tsan_atomic8_store",
-              "-Wl,--wrap=__tsan_atomic64_load", "-Wl,--wrap=__tsan_atomic64_store"],
-             ["seams/fiber_sched.cpp"]),
+    "c19c": ("tsan", ["props/c19_log_conc.cpp"], [], C19C_WRAPS, ["seams/fiber_sched.cpp"]),
 }
 
 GEN = {
@@ -193,6 +196,21 @@ def main():
         write(os.path.join(fdir, "lib.stamp"), repo_hash)
     # property binary
     bflav, srcs, extra, link, plain_srcs = BINARIES[binary]
+    if binary == "c19c":
+        # which synchronisation symbols does the code under test (log library) reference?
+        objs = []
+        for dp, dn, fn in os.walk(os.path.join(fdir, "obj", "log")):
+            objs += [os.path.join(dp, f) for f in fn if f.endswith(".o")]
+        rc, out = run(["nm", "-u"] + objs)
+        bad = sorted(set(line.split()[-1] for line in out.splitlines()
+                         if line.split() and any(line.split()[-1].startswith(u) for u in UNSUPPORTED_SYNC)))
+        if not objs:
+            print("BUILD-ERROR no objects of the log library found below", os.path.join(fdir, "obj", "log"))
+            return 2
+        if bad:
+            print("BUILD-ERROR the log library uses synchronisation primitives the fiber scheduler cannot "
+                  "simulate: %s - no verdict from the concurrent engine" % ", ".join(bad))
+            return 2
     assert bflav == flavour, "binary %s belongs to flavour %s" % (binary, bflav)
     h = hashlib.sha256()
     for sfile in srcs + plain_srcs:
